@@ -179,7 +179,11 @@ def handle : Handler := fun op inp impl => do
                   ("C10.no_false_rollback", noFalseRollback c s ns ref io),
                   ("C10.inconsistent_is_opaque", inconsistentIsOpaque c s ns ref io),
                   ("C08.finder_dispatch", finderDispatch c s ns ref io),
-                  ("C03.pod_template_hash_from_canary_rs", podTemplateHashFromCanaryRs c s ns ref io)]
+                  ("C03.pod_template_hash_from_canary_rs", podTemplateHashFromCanaryRs c s ns ref io)] ++
+                 -- C06 / C10: a read the finder performs and that fails (injected fault) is answered with an error — the record
+                 -- (rollback flag, revisions) is never completed from a lookup that did not succeed
+                 (let errClass : Out → Bool := fun x => match x with | .err => true | .wlErr _ => true | _ => false
+                  if errClass o then [("C06.finder_fault_reported", errClass io), ("C10.finder_fault_reported", errClass io)] else [])
     let own := match getRollingStyle s with
       | none => "owner:-"
       | some st => match owners st c.filter (groupOf ref) ref.kind with
